@@ -413,6 +413,25 @@ func (x *g) stmtOf(what string) {
 			x.line("%s, %s = %s", x.fresh("v"), x.fresh("v"), x.expr(KList, 1))
 			x.f("risky-unpack")
 		}
+		// the same name more than once among the targets (a rebinding: inside functions, or where globals may be
+		// reassigned): targets are assigned left to right, the last assignment wins
+		if (!x.sc.file || x.opts.GlobalReassign) && x.chance(0.35, "repeated-target") {
+			x.f("repeated-target")
+			r := x.fresh("v")
+			e3 := x.expr(k1, 1)
+			switch x.intn(4, "repform") {
+			case 0:
+				x.line("%s, %s, %s = %s, %s, %s", r, x.fresh("v"), r, e1, e2, e3)
+			case 1:
+				x.line("%s, %s = %s, %s", r, r, e1, e3)
+			case 2:
+				x.line("[%s, (%s, %s)] = [%s, (%s, %s)]", r, x.fresh("v"), r, e1, e2, e3)
+			case 3:
+				x.line("%s, %s = %s", r, r, "["+e1+", "+e3+"]")
+			}
+			x.declare(r, k1, nil)
+			x.line("t(%s, %s)", x.tag(), r)
+		}
 		x.declare(n1, k1, nil)
 		x.declare(n2, k2, nil)
 	case "aug":
